@@ -8,7 +8,8 @@ train / eval, softmax / Gumbel sampling.  ALL op sequences up to a depth over th
 search step} are enumerated; every history is run from scratch on ONE freshly built live object (no copy of the
 model under test), seeded length-5 histories over the full alphabet are added.  After every
 step a fingerprint is taken: parameters / buffers (bitwise), `.training` of every module, sampled
-coefficients, position of torch's global RNG, requires_grad, and — on deep copies, RNG re-seeded — every
+coefficients, sampling options, plain attributes of every module (padding, value, stride, ... of the
+layers shared with the user's model / the export), position of torch's global RNG, requires_grad, and — on deep copies, RNG re-seeded — every
 cost value, summary(), structural hash of export(), output on a fixed batch.
 
 Oracle (on the implementation): an observer changes no fingerprint component (flags are compared module by
@@ -28,11 +29,11 @@ ALL = ['export', 'export_nobn', 'summary', 'cost', 'get_cost:a', 'get_cost:b', '
 FULL = [o for o in ALL if o not in ('export_nobn', 'set_spec:single_b')]       # + export_nobn on PIT (the only method that accepts it)
 MID = ['export', 'summary', 'cost', 'get_cost:a', 'get_cost:b', 'set_spec:dict', 'set_spec:single_a', 'forward']
 SMALL = ['export', 'summary', 'get_cost:a', 'get_cost:b', 'forward']
-ALPH = {'full': FULL, 'full_pit': ['export_nobn'] + FULL, 'mid': MID, 'small': SMALL}
-STATE = ('params', 'buffers', 'train_wrapper', 'train_seed', 'train_leaves_all', 'train_leaves_any', 'train_sub_all', 'train_sub_any', 'flags', 'theta', 'rng', 'reqgrad', 'sampling')
+ALPH = {'full': FULL, 'full_pit': ['export_nobn'] + FULL, 'mid': MID, 'small': SMALL, 'zoo': MID + ['train_step']}
+STATE = ('params', 'buffers', 'train_wrapper', 'train_seed', 'train_leaves_all', 'train_leaves_any', 'train_sub_all', 'train_sub_any', 'flags', 'theta', 'rng', 'reqgrad', 'sampling', 'attrs')
 DERIVED = ('cost', 'summary', 'export', 'output')
 GROUP = {'params': 'parameters', 'buffers': 'buffers', 'train_wrapper': 'training-mode', 'train_seed': 'training-mode', 'train_leaves_all': 'training-mode',
-         'train_leaves_any': 'training-mode', 'train_sub_all': 'training-mode', 'train_sub_any': 'training-mode', 'flags': 'training-mode', 'theta': 'sampled-coefficients', 'sampling': 'sampling-options', 'rng': 'rng', 'reqgrad': 'requires-grad',
+         'train_leaves_any': 'training-mode', 'train_sub_all': 'training-mode', 'train_sub_any': 'training-mode', 'flags': 'training-mode', 'theta': 'sampled-coefficients', 'sampling': 'sampling-options', 'attrs': 'module-attributes', 'rng': 'rng', 'reqgrad': 'requires-grad',
          'cost': 'cost', 'summary': 'summary', 'export': 'export', 'output': 'output'}
 
 
@@ -54,6 +55,19 @@ def all_cfgs():
     return out
 
 
+def zoo_cfgs():
+    """further topologies (c18_impl._build_zoo): causal Conv1d network with non-zero ConstantPad1d modules and pruned rf / dilation
+    masks (PIT); two-input networks that concatenate their raw inputs (PIT, MPS)"""
+    out = []
+    for arch in ('tcn', 'fusion'):
+        for fc in (True, False):
+            for train in ((True, False) if fc else (True,)):
+                out.append(dict(method='PIT', arch=arch, full_cost=fc, train=train, gumbel=False, spec0='dict' if fc else 'single_a', prefix=(), sub=('bn',), mixed=not fc))
+    out.append(dict(method='MPS', arch='fusion', full_cost=True, train=True, gumbel=False, spec0='dict', prefix=(), sub=('sampler',), mixed=False))
+    out.append(dict(method='MPS', arch='fusion', full_cost=False, train=True, gumbel=True, spec0='dict', prefix=(), sub=('sampler',), mixed=True))
+    return out
+
+
 def option_cfgs():
     """sampling options at non-default values at observer time (set through update_softmax_options in the prefix)"""
     base = dict(full_cost=True, spec0='single_a', mixed=False)
@@ -72,7 +86,7 @@ def option_cfgs():
 
 
 def cfg_name(c):
-    return '%s/%s/%s/%s/%s/%s' % (c['method'], 'gumbel' if c['gumbel'] else 'softmax', 'train' if c['train'] else 'eval', 'full_cost' if c['full_cost'] else 'nas_cost', c['spec0'],
+    return '%s%s/%s/%s/%s/%s/%s' % (c['method'], ':' + c['arch'] if c.get('arch') else '', 'gumbel' if c['gumbel'] else 'softmax', 'train' if c['train'] else 'eval', 'full_cost' if c['full_cost'] else 'nas_cost', c['spec0'],
                                   ('mixed:' if c.get('mixed') else 'S=') + '+'.join(c.get('sub', ()))) + ('/after:' + ','.join(c['prefix']) if c.get('prefix') else '')
 
 
@@ -110,6 +124,8 @@ def step_oracle(cfg, path, ob, fp, par, fails):
         ba = {k: (par[k], fp[k]) for k in ch[:4]}
         if 'sampling' in ch:
             ba['sampling'] = (par['sampling_v'], fp['sampling_v'])
+        if 'attrs' in ch:
+            ba['attrs'] = (sorted(set(par['attrs_v']) - set(fp['attrs_v']))[:6], sorted(set(fp['attrs_v']) - set(par['attrs_v']))[:6])
         if 'cost' in ch:       # show the values: each metric as read FIRST on a copy of the model before / after the call
             ba['cost'] = ({k: _fl(v) for k, v in par['costs'].items()}, {k: _fl(v) for k, v in fp['costs'].items()})
         for g in (st or de):
@@ -174,7 +190,7 @@ def path_oracles(cfg, nodes, fails):
 def coq_cfg(c):
     m = {'PIT': 'PIT', 'MPS': 'MPS', 'SuperNet': 'SN'}[c['method']]
     has_bn = c['method'] in ('PIT', 'SuperNet')
-    has_drop = c['method'] in ('PIT', 'SuperNet')
+    has_drop = c['method'] in ('PIT', 'SuperNet') and not c.get('arch')        # the zoo networks have no Dropout
     sub = c.get('sub', ())
     return '(mkCfg %s %s %s %s true %s %s %s %s)' % (m, coq(c['gumbel']), coq(has_bn), coq(has_drop), coq('bn' in sub), coq('drop' in sub), coq('sampler' in sub), coq(c['full_cost']))
 
@@ -244,13 +260,13 @@ def compare_path(cfg, path, nodes, mres, mism):
 
 # ----------------------------------------------------------------------------- run
 def plan(ctx):
-    cfgs = all_cfgs()
+    cfgs = all_cfgs() + zoo_cfgs()
     only = os.environ.get('VERIF_C18_METHODS')        # development knob (mutant runs): restrict to some methods
     if only:
         cfgs = [c for c in cfgs if c['method'] in only.split(',')]
-    main = [c for c in cfgs if c['train'] and (c['method'] == 'PIT' or c['gumbel'])]          # 2 + 2 + 2
+    main = [c for c in cfgs if not c.get('arch') and c['train'] and (c['method'] == 'PIT' or c['gumbel'])]          # 2 + 2 + 2
     tasks = []
-    full = lambda c: 'full_pit' if c['method'] == 'PIT' else 'full'
+    full = lambda c: ('zoo' if ctx.quick else 'full') if c.get('arch') else 'full_pit' if c['method'] == 'PIT' else 'full'
     # depth 3: the three main methods in training, one with uniform flags + dict specification, two with mixed flags + dict
     deep3 = [dict(c, mixed=(c['method'] != 'MPS'), spec0='dict') for c in main if c['full_cost']]
     if ctx.quick:
@@ -290,11 +306,11 @@ def run(ctx):
     built = ctx.build()
     tasks = plan(ctx)
     ctx.rule = ('every op sequence up to the stated depth over the alphabet {export, export(add_bn=False) [PIT], summary, cost, get_cost(a), get_cost(b), set spec dict / single, '
-                'forward, search step, flip the flags of the sub-set S} on 20 configurations (method x sampler x train/eval x {full_cost + dict specification + uniform flags | '
+                'forward, search step, flip the flags of the sub-set S} on 20 base configurations (method x sampler x train/eval x {full_cost + dict specification + uniform flags | '
                 'nas cost + single specification + MIXED flags: BatchNorm/Dropout/samplers opposite to the wrapper}) + 3 training configurations with full_cost, dict specification '
                 '(2 of them with mixed flags); every history runs from scratch on one freshly built live object; + seeded length-5 histories (random sub-set S, random mixed start, '
                 'random initial specification, update_softmax_options presets as ops and in the prefix) + 10 MPS / SuperNet configurations whose sampling options are non-default at '
-                'observer time (disable_sampling=True after search steps, hard, temperature 0.5, gumbel switched; 8-op alphabet depth 2). quick: depth 2 on the 20, depth 3 on the 3; thorough: depth 3 on training / 2 on eval configurations, 8-op alphabet depth 4 on 4, '
+                'observer time + 8 zoo configurations (PIT causal Conv1d net with ConstantPad1d(value != 0) and pruned rf/dilation masks; PIT and MPS two-input nets that cat their raw inputs); options: (disable_sampling=True after search steps, hard, temperature 0.5, gumbel switched; 8-op alphabet depth 2). quick: depth 2 on the 20, depth 3 on the 3; thorough: depth 3 on training / 2 on eval configurations, 8-op alphabet depth 4 on 4, '
                 '5-op alphabet depth 5 on 3; a case = one history; non-trivial = it contains an observer call; distinct = distinct (configuration, history)')
     tasks.sort(key=lambda t: -(len(ALPH[t[2]]) ** (t[3] - 1) if t[0] == 'dfs' else 1))
     mp = multiprocessing.get_context('fork')
@@ -376,6 +392,8 @@ def replay(r):
         if is_obs(op):
             ch = [k for k in STATE + DERIVED if fp[k] != par[k]]
             print('step %d %-18s -> %-16s changed: %s' % (i + 1, op, str(res['obs'][i])[:16], ch or 'nothing'))
+            if 'attrs' in ch:
+                print('        module attributes before: %s  after: %s' % (sorted(set(par['attrs_v']) - set(fp['attrs_v']))[:6], sorted(set(fp['attrs_v']) - set(par['attrs_v']))[:6]))
             if 'sampling' in ch:
                 print('        sampling options before: %s  after: %s' % (par['sampling_v'], fp['sampling_v']))
             if 'cost' in ch:
